@@ -169,6 +169,10 @@ fn run_case<A: Alphabet>(case: u64, rng: &mut Rng, rep: &mut Report, alpha: &str
             if rng.chance(0.2) {
                 r[k - 1] = rng.below(5) as u32;
             }
+            if rng.chance(0.06) {
+                // almost every observation is the wildcard: all log-odds of the row are negative
+                r[k - 1] = hi.saturating_mul(20).max(40);
+            }
             // never an all-zero row: its frequencies are undefined
             if r.iter().all(|&c| c == 0) {
                 r[rng.below(k - 1)] = 1;
